@@ -46,8 +46,18 @@ CATALOGUE = [
     dict(pre='".x', lines=[exp(P1, 'f:+1,+0x1')], nlen=0, pad=0, group=1),
     dict(pre='c', lines=[exp(P1, 'f1:+1,+0x1'), exp(P1, 'f2:+2,+0x2')], nlen=-1, pad=1, group=3),   # the expansion of 7
     dict(pre='s', lines=[exp(P1, 'f:+1,+0x1'), empty('g:+1,+0x1'), ditto('h:+1,+0x1')], nlen=0, pad=2, group=1),
+    # 13..18 (review round): record sizes without padding (16+n = 32, 64, 4096), one byte below the cap, import
+    # paths that themselves contain dots / receivers / instantiations, an empty prefix and an empty symbol
+    dict(pre='n16/', lines=[], nlen=16, pad=-1, group=0),
+    dict(pre='n48:', lines=[], nlen=48, pad=-1, group=5),
+    dict(pre='s', lines=[exp(P1, 'f:+1,+0x1'), ditto('g:+2,+0x2')], nlen=4080, pad=1, group=1),
+    dict(pre='l4095/', lines=[], nlen=4095, pad=-1, group=1),
+    dict(pre='gopls/bug', lines=[exp(P1 + '.(*T)', 'outer:+1,+0x1'), ditto('inner:+2,+0x2'), exp('main.g[...]', 'func1:+1,+0x1'),
+                                 ditto('func2:+0,+0x3'), exp('example.com/a.b/c.d', 'e:=9,+0x0')], nlen=0, pad=3, group=0),
+    dict(pre='', lines=[exp(P2, 'f:+1,+0x1'), ditto('')], nlen=0, pad=0, group=5),
 ]
-IN_SCOPE = [1, 2, 3, 4, 5, 6, 7, 8]
+IN_SCOPE = [1, 2, 3, 4, 5, 6, 7, 8, 13, 14, 15, 16, 17, 18]
+TRIPLES = [1, 4, 5, 6, 7, 13, 15, 17]          # names combined three at a time
 
 TYPICAL = ('TimeBegin: 2024-01-03T00:00:00Z\nTimeEnd: 2024-01-07T00:00:00Z\nProgram: golang.org/x/tools/gopls\nVersion: v0.16.1\n'
            'GoVersion: go1.23.5\nGOOS: linux\nGOARCH: amd64\n\n')
@@ -71,10 +81,14 @@ def meta_catalogue():
         'K: 1\nL: 2\nK: 3\n\n',               # 6 a key twice
         'A: 1\n\x00B: 2\n',                   # 7 text after the NUL terminator
         over,                                 # 8 above the size cap
+        'A: 1\n\nB: 2\n\n',                   # 9 a blank line between two lines
+        ': v\nK: \n',                         # 10 empty key, empty value
+        'K: V',                               # 11 no newline at all
+        'K\xff: \xfe\r\n\tT: x\r\n',          # 12 invalid UTF-8, CR LF line ends, a tab
     ]
 
 
-WF_METAS = [1, 2, 3, 4, 7]
+WF_METAS = [1, 2, 3, 4, 7, 9, 10, 11, 12]
 
 
 class Intern:
@@ -118,23 +132,32 @@ def build_mc(ctx, names, metas_abs):
     mcat = ['[len |-> %d, lines |-> <<%s>>]' % (m['len'], ', '.join('[k |-> %d, v |-> %d, sep |-> %s]' % (l['k'], l['v'], 'TRUE' if l['sep'] else 'FALSE')
                                                                      for l in m['lines'])) for m in metas_abs]
     ns = '{%s}' % ', '.join(map(str, IN_SCOPE))
+    ns3 = '{%s}' % ', '.join(map(str, TRIPLES))
     if ctx.thorough():
         vs = '{0, 1, 2, 3}'
         pats3 = '{<<0, 1, 2>>, <<2, 2, 2>>, <<1, 0, 3>>, <<4, 1, 1>>}'
-        four = ('\\cup {<<[n |-> a, v |-> 1], [n |-> b, v |-> 2], [n |-> c, v |-> 0], [n |-> d, v |-> 1]>> : a \\in Ns, b \\in Ns, c \\in Ns, d \\in Ns}')
-        wfm = WF_METAS
+        trip = 'Ns'
+        four = ('\\cup {<<[n |-> a, v |-> 1], [n |-> b, v |-> 2], [n |-> c, v |-> 0], [n |-> d, v |-> 1]>> : a \\in Ns3, b \\in Ns3, c \\in Ns3, d \\in Ns3}')
+        wfm = [1, 3]
     else:
         vs = '{0, 1, 2}'
         pats3 = '{<<0, 1, 2>>, <<2, 2, 1>>}'
+        trip = 'Ns3'
         four = ''
-        wfm = [1, 3]
-    items = '''LET Ns == %s  Vs == %s  Pats == %s
-               All == {<<>>} \\cup {<<[n |-> a, v |-> x]>> : a \\in 1..Len(MCNameCat), x \\in Vs}
+        wfm = [1]
+    # files of two pages: four names of ~4 KiB, then a record that starts the second page
+    multi = ('{<<[n |-> 3, v |-> 1], [n |-> 6, v |-> 2], [n |-> 16, v |-> 0], [n |-> 15, v |-> 3]>>, '
+             '<<[n |-> 15, v |-> 4], [n |-> 16, v |-> 1], [n |-> 6, v |-> 1], [n |-> 3, v |-> 2], [n |-> 13, v |-> 1], [n |-> 5, v |-> 2]>>}')
+    items = '''LET Ns == %s  Ns3 == %s  Vs == %s  Pats == %s
+               All == {<<>>} \\cup {<<[n |-> a, v |-> x]>> : a \\in 1..Len(MCNameCat), x \\in 0..4}
                  \\cup {<<[n |-> a, v |-> x], [n |-> b, v |-> y]>> : a \\in Ns, b \\in Ns, x \\in Vs, y \\in Vs}
-                 \\cup {<<[n |-> a, v |-> p[1]], [n |-> b, v |-> p[2]], [n |-> c, v |-> p[3]]>> : a \\in Ns, b \\in Ns, c \\in Ns, p \\in Pats}
+                 \\cup {<<[n |-> a, v |-> p[1]], [n |-> b, v |-> p[2]], [n |-> c, v |-> p[3]]>> : a \\in %s, b \\in %s, c \\in %s, p \\in Pats}
                  %s
+                 \\cup %s
                  \\cup {<<[n |-> 7, v |-> 1], [n |-> 11, v |-> 2]>>, <<[n |-> 11, v |-> 1], [n |-> 7, v |-> 2]>>, <<[n |-> 5, v |-> 1], [n |-> 12, v |-> 1], [n |-> 9, v |-> 0]>>}
-           IN  {s \\in All : \\A i, j \\in DOMAIN s : i # j => s[i].n # s[j].n}''' % (ns, vs, pats3, four)
+           IN  {s \\in All : \\A i, j \\in DOMAIN s : i # j => s[i].n # s[j].n}''' % (ns, ns3, vs, pats3, trip, trip, trip, four, multi)
+    meta_items = ('{<<>>, <<[n |-> 1, v |-> 1]>>, <<[n |-> 13, v |-> 2]>>, <<[n |-> 5, v |-> 1], [n |-> 7, v |-> 2]>>, '
+                  '<<[n |-> 17, v |-> 1], [n |-> 3, v |-> 0]>>, <<[n |-> 3, v |-> 1], [n |-> 6, v |-> 2], [n |-> 16, v |-> 0], [n |-> 15, v |-> 3], [n |-> 14, v |-> 1]>>}')
     bases = [
         (1, [(7, 1), (5, 2)]),
         (1, [(2, 1), (4, 0), (3, 2)]),
@@ -153,10 +176,10 @@ def build_mc(ctx, names, metas_abs):
     dmg = [('none', 0, '-'), ('prefix', 0, '-'), ('swapheads', 0, '-')]
     dmg += [('size', 0, x) for x in ['empty', 'short', 'pagem1', 'odd', 'more']]
     dmg += [('hdrlen', 0, x) for x in ['zero', 'five', 'thirtyone', 'plus1', 'plus32', 'minus32', 'page', 'pageplus', 'size', 'huge']]
-    dmg += [('limit', 0, x) for x in ['zero', 'intable', 'low', 'odd', 'beyond', 'huge']]
+    dmg += [('limit', 0, x) for x in ['zero', 'intable', 'low', 'odd', 'beyond', 'huge', 'reserved']]
     dmg += [('next', i, x) for i in (1, 2, 3) for x in targets]
     dmg += [('head', i, x) for i in (1, 2) for x in targets]
-    dmg += [('nlen', i, x) for i in (1, 2) for x in ['zero', 'over', 'beyond', 'max24']]
+    dmg += [('nlen', i, x) for i in (1, 2) for x in ['zero', 'over', 'beyond', 'max24', 'tofileend', 'tofileend1']]
     pair_bases = bases[:2] if ctx.thorough() else []
     mc = '''---- MODULE MCFileFormatParse ----
 EXTENDS FileFormatParse
@@ -164,11 +187,13 @@ MCNameCat == <<%s>>
 MCMetaCat == <<%s>>
 MCWFItems == %s
 MCWFMetas == {%s}
+MCMetaItems == %s
+MCMetaAll == {%s}
 MCBadBases == {%s}
 MCPairBases == {%s}
 MCDamage == {%s}
 ====
-''' % (',\n  '.join(ncat), ',\n  '.join(mcat), items, ', '.join(map(str, wfm)), ', '.join(base(b) for b in bases),
+''' % (',\n  '.join(ncat), ',\n  '.join(mcat), items, ', '.join(map(str, wfm)), meta_items, ', '.join(map(str, WF_METAS)), ', '.join(base(b) for b in bases),
        ', '.join(base(b) for b in pair_bases), ', '.join('[t |-> "%s", i |-> %d, x |-> "%s"]' % d for d in dmg))
     return mc
 
@@ -335,7 +360,7 @@ def run(ctx):
     loops = [v for v in vectors if v['cls'] == 'cycle-ditto']
     rest = [v for v in vectors if v['cls'] != 'cycle-ditto']
     rnd.shuffle(loops)
-    keep = ctx.pick(3, 14)
+    keep = len(loops)          # all of them: they return at once on a correct decoder; if they hang the run is cut short after `cap` hangs
     ctx.cov['cycle_ditto_vectors'] = {'enumerated': len(loops), 'run': min(keep, len(loops))}
     vectors = rest + loops[:keep]
     hist = {}
